@@ -218,6 +218,24 @@ func (w *sketchWorld) apply(e *SkEvent) (errClass string, problem string) {
 	cfg := w.cfg
 	q := float64(cfg.Q)
 	switch e.Op {
+	case "AddN":
+		r := w.sk[e.S-1]
+		x, ok := tokenValue(cfg.conc(r.m), cfg.Keys, e.V)
+		if !ok {
+			return "", fmt.Sprintf("INFRA: token %d cannot be concretised", e.V)
+		}
+		for k := 0; k < e.Num; k++ {
+			var err error
+			if r.exact != nil {
+				err = r.exact.Add(x)
+			} else {
+				err = r.plain.Add(x)
+			}
+			if err != nil {
+				return errClassOf(err), ""
+			}
+		}
+		return "", ""
 	case "Add", "AddW":
 		r := w.sk[e.S-1]
 		x, ok := tokenValue(cfg.conc(r.m), cfg.Keys, e.V)
@@ -445,7 +463,7 @@ func storeBinsAsKeys(st store.Store, ke keyEmbedding, q float64) (map[int]float6
 	return got, problem
 }
 
-func compareSide(name string, st store.Store, pred pairList, ke keyEmbedding, q float64) string {
+func compareSide(name string, st store.Store, pred pairList, ke keyEmbedding, conc *concretizer, q float64) string {
 	got, p := storeBinsAsKeys(st, ke, q)
 	if p != "" {
 		return name + " store: " + p
@@ -454,8 +472,8 @@ func compareSide(name string, st store.Store, pred pairList, ke keyEmbedding, q 
 		return fmt.Sprintf("%s store holds %d bins %v, specification says %d %v (model keys)", name, len(got), got, len(pred), pred)
 	}
 	for _, b := range pred {
-		if w, ok := got[ke.idx(b[0])]; !ok || w != float64(b[1]) {
-			return fmt.Sprintf("%s store: bin of model key %d (index %d) holds %v quanta, specification says %d; store=%v", name, b[0], ke.idx(b[0]), got[ke.idx(b[0])], b[1], got)
+		if w, ok := got[ke.idxFor(conc, b[0])]; !ok || w != float64(b[1]) {
+			return fmt.Sprintf("%s store: bin of model key %d (index %d) holds %v quanta, specification says %d; store=%v", name, b[0], ke.idxFor(conc, b[0]), got[ke.idxFor(conc, b[0])], b[1], got)
 		}
 	}
 	return ""
@@ -485,10 +503,10 @@ func (w *sketchWorld) compareSketch(r *realSketch, p *SkObs) *skDiff {
 		if (r.exact != nil) != (p.Variant == "exact") {
 			return &skDiff{"bins", "INFRA: variant mismatch between harness and model", nil}
 		}
-		if d := compareSide("positive", base.GetPositiveValueStore(), p.Pos, ke, q); d != "" {
+		if d := compareSide("positive", base.GetPositiveValueStore(), p.Pos, ke, conc, q); d != "" {
 			return &skDiff{"bins", d, nil}
 		}
-		if d := compareSide("negative", base.GetNegativeValueStore(), p.Neg, ke, q); d != "" {
+		if d := compareSide("negative", base.GetNegativeValueStore(), p.Neg, ke, conc, q); d != "" {
 			return &skDiff{"bins", d, nil}
 		}
 		if base.GetZeroCount()*q != float64(p.Zero) {
@@ -868,13 +886,20 @@ func (w *sketchWorld) checkExactStats(r *realSketch, p *SkObs, answers []float64
 		exactSum.Add(exactSum, t)
 		absSum.Add(absSum, t.Abs(t))
 	}
-	got := new(big.Float).SetPrec(400).SetFloat64(ex.GetSum())
-	diff := new(big.Float).SetPrec(400).Sub(got, exactSum)
-	diff.Abs(diff)
-	bound := new(big.Float).SetPrec(400).Mul(absSum, big.NewFloat(16*math.Pow(2, -53)))
-	if diff.Cmp(bound) > 0 {
-		es, _ := exactSum.Float64()
-		return &skDiff{"exact", fmt.Sprintf("exact sum %v differs from the true sum %v of the absorbed values by more than 16 ulps of sum|v*w|", ex.GetSum(), es), ex.GetSum()}
+	// (sums whose terms approach MaxFloat64 overflow in float64 arithmetic: not compared)
+	if as, _ := absSum.Float64(); as < math.MaxFloat64/4 {
+		gs := ex.GetSum()
+		if math.IsNaN(gs) || math.IsInf(gs, 0) {
+			return &skDiff{"exact", fmt.Sprintf("exact sum is %v although the absorbed values are finite and far from overflow", gs), gs}
+		}
+		got := new(big.Float).SetPrec(400).SetFloat64(gs)
+		diff := new(big.Float).SetPrec(400).Sub(got, exactSum)
+		diff.Abs(diff)
+		bound := new(big.Float).SetPrec(400).Mul(absSum, big.NewFloat(16*math.Pow(2, -53)))
+		if diff.Cmp(bound) > 0 {
+			es, _ := exactSum.Float64()
+			return &skDiff{"exact", fmt.Sprintf("exact sum %v differs from the true sum %v of the absorbed values by more than 16 ulps of sum|v*w|", gs, es), gs}
+		}
 	}
 	// quantiles lie within [min,max] and otherwise equal the plain sketch's answers
 	for i, qp := range p.Qs {
@@ -925,6 +950,12 @@ type SkMismatch struct {
 
 func replaySketch(beh []SkStep, cfg *SketchCfg) (mm *SkMismatch) {
 	w := newSketchWorld(cfg)
+	asp := cfg.Aspects
+	var wB *sketchWorld // second execution of the real code for the differential aspects
+	if asp["pure"] || asp["clear"] {
+		wB = newSketchWorld(cfg)
+	}
+	modelCompare := asp["bins"] || asp["quantile"] || asp["coherence"] || asp["refuse"] || asp["exact"] || asp["proto"] || asp["minmax"]
 	step := 0
 	var cur *SkEvent
 	defer func() {
@@ -938,6 +969,17 @@ func replaySketch(beh []SkStep, cfg *SketchCfg) (mm *SkMismatch) {
 		tags := map[string]string{"outcome": "mismatch", "op": cur.Op, "v": fmt.Sprint(cur.V), "w": fmt.Sprint(cur.W)}
 		if cur.S >= 1 && cur.S <= len(w.sk) {
 			tags["variant"] = map[bool]string{true: "exact", false: "plain"}[w.sk[cur.S-1].exact != nil]
+		}
+		recv := cur.S
+		switch cur.Op {
+		case "Merge", "Copy", "EncDec", "DecodeNew", "Proto":
+			recv = cur.T
+		}
+		var before []*skSnap
+		if asp["pure"] || (asp["reweight"] && cur.Op == "Reweight") || (asp["refuse"] && beh[i].Err != "") {
+			for _, r := range w.sk {
+				before = append(before, snapshot(r))
+			}
 		}
 		ec, problem := w.apply(cur)
 		if strings.HasPrefix(problem, "INFRA") {
@@ -966,11 +1008,79 @@ func replaySketch(beh []SkStep, cfg *SketchCfg) (mm *SkMismatch) {
 			if want == "" {
 				return &SkMismatch{Step: step, Aspect: "refuse", What: fmt.Sprintf("%s(%+v) must be accepted but returned error class %q", cur.Op, *cur, ec), Tags: tags}
 			}
-			if cfg.Aspects["refuse"] {
+			if asp["refuse"] {
 				return &SkMismatch{Step: step, Aspect: "refuse", What: fmt.Sprintf("%s(%+v) must be refused with %q but returned %q", cur.Op, *cur, want, ec), Tags: tags}
 			}
 		}
-		if cfg.Mode == "final" && i != len(beh)-1 {
+		// ---- differential aspects (real vs real) ----
+		if asp["refuse"] && want != "" {
+			// C13: a refused call leaves every observable aspect of every sketch as it was
+			for s := range w.sk {
+				if after := snapshot(w.sk[s]); !snapEqual(before[s], after) {
+					tags["aspect"] = "refuse"
+					return &SkMismatch{Step: step, Slot: s + 1, Aspect: "refuse", What: fmt.Sprintf("the refused call %s(%+v) changed slot %d:\nbefore: %s\nafter:  %s", cur.Op, *cur, s+1, before[s], after), Tags: tags}
+				}
+			}
+		}
+		if asp["pure"] {
+			// C14: only the receiver of an event may change; a Read changes nothing; a copy answers like its original
+			for s := range w.sk {
+				if (s+1 != recv || cur.Op == "Read" || want != "") && s < len(before) {
+					if after := snapshot(w.sk[s]); !snapEqual(before[s], after) {
+						tags["aspect"] = "pure"
+						return &SkMismatch{Step: step, Slot: s + 1, Aspect: "pure", What: fmt.Sprintf("slot %d is not the receiver of %s(%+v) but its answers changed:\nbefore: %s\nafter:  %s", s+1, cur.Op, *cur, before[s], after), Tags: tags}
+					}
+				}
+			}
+			if cur.Op == "Copy" {
+				a, b := snapshot(w.sk[cur.S-1]), snapshot(w.sk[cur.T-1])
+				if !snapEqual(a, b) {
+					tags["aspect"] = "pure"
+					return &SkMismatch{Step: step, Slot: cur.T, Aspect: "pure", What: fmt.Sprintf("a fresh copy answers differently from its original:\noriginal: %s\ncopy:     %s", a, b), Tags: tags}
+				}
+			}
+			// second world: same mutations, no reads at all; compared at the end
+			if cur.Op != "Read" {
+				wB.apply(cur)
+			}
+		}
+		if asp["clear"] {
+			// C15: second world replaces the cleared object by a brand-new one
+			if cur.Op == "Clear" {
+				wB.sk[cur.S-1] = wB.freshLike(wB.sk[cur.S-1])
+			} else {
+				wB.apply(cur)
+			}
+			for s := range w.sk {
+				a, b := snapshot(w.sk[s]), snapshot(wB.sk[s])
+				if !snapEqual(a, b) {
+					tags["aspect"] = "clear"
+					return &SkMismatch{Step: step, Slot: s + 1, Aspect: "clear", What: fmt.Sprintf("slot %d: an object reused after Clear answers differently from a brand-new object given the same later history:\nreused: %s\nnew:    %s", s+1, a, b), Tags: tags}
+				}
+			}
+		}
+		if asp["reweight"] && cur.Op == "Reweight" && want == "" && cur.Num != cur.Den {
+			if d := scaledSnapDiff(before[cur.S-1], snapshot(w.sk[cur.S-1]), float64(cur.Num)/float64(cur.Den)); d != "" {
+				tags["aspect"] = "reweight"
+				return &SkMismatch{Step: step, Slot: cur.S, Aspect: "reweight", What: d, Tags: tags}
+			}
+		}
+		if asp["twin-merge"] && (cur.Op == "Merge" || i == len(beh)-1) && want == "" {
+			for s := range w.sk {
+				if cur.Op == "Merge" && s+1 != recv && i != len(beh)-1 {
+					continue
+				}
+				tw, p := w.twinFromBag(w.sk[s], &beh[i].Pred[s])
+				if p != "" {
+					infraFail("%s", p)
+				}
+				if d := mergeSnapDiff(snapshot(w.sk[s]), snapshot(tw)); d != "" {
+					tags["aspect"] = "twin-merge"
+					return &SkMismatch{Step: step, Slot: s + 1, Aspect: "twin-merge", What: fmt.Sprintf("slot %d after %s differs from a single sketch fed the absorbed multiset %v:\n%s", s+1, cur.Op, beh[i].Pred[s].Bag, d), Tags: tags}
+				}
+			}
+		}
+		if !modelCompare || (cfg.Mode == "final" && i != len(beh)-1) {
 			continue
 		}
 		for s := range w.sk {
@@ -980,6 +1090,15 @@ func replaySketch(beh []SkStep, cfg *SketchCfg) (mm *SkMismatch) {
 				}
 				tags["aspect"] = d.Aspect
 				return &SkMismatch{Step: step, Slot: s + 1, Aspect: d.Aspect, What: fmt.Sprintf("slot %d: %s", s+1, d.What), Pred: &beh[i].Pred[s], Actual: d.Actual, Tags: tags}
+			}
+		}
+	}
+	if asp["pure"] {
+		for s := range w.sk {
+			a, b := snapshot(w.sk[s]), snapshot(wB.sk[s])
+			if !snapEqual(a, b) {
+				return &SkMismatch{Step: step, Slot: s + 1, Aspect: "pure", What: fmt.Sprintf("slot %d: the same mutations with and without interleaved read-only calls lead to different answers:\nwith reads:    %s\nwithout reads: %s", s+1, a, b),
+					Tags: map[string]string{"outcome": "mismatch", "aspect": "pure"}}
 			}
 		}
 	}
